@@ -293,9 +293,31 @@ def check_partition(pre, post, S, cell, out, measured_now):
 # ------------------------------------------------------------------------------------------
 # common checks
 # ------------------------------------------------------------------------------------------
+def action_props(world, r, res):
+    """Properties whose specified transformation the action is an instance of."""
+    do = r["do"]
+    if do == "fault":
+        return ["C17"]
+    if do == "op":
+        from sim.actions import op_spec
+
+        spec = op_spec(world, r) or {}
+        props = ["C03"] if spec.get("t", "").startswith("X.") else ["C01"]
+        if spec.get("t") in ("X.BS", "F.PhaseShift") or (spec.get("t") == "X.Expr" and spec.get("form") == "bs"):
+            props = props + ["C11"]
+        return props
+    if do == "measure":
+        return ["C05"]
+    return list(PROP_OF_ACTION.get(do, ["C01"]))
+
+
 def common_checks(world, pre, post, r, res, cell, out):
+    aprops = action_props(world, r, res)
     for prop, code, detail in post.problems:
-        out.append(Violation([prop], "invariant", code, cell, detail))
+        # a malformed world right after an action also means that the action did not perform its
+        # specified transformation: the violation counts against the action's property as well
+        props = [prop] + [p for p in aprops if p != prop and p != "C11"]
+        out.append(Violation(props, "invariant", code, cell, detail))
     # user arrays
     for label, arr, dig in world.user_arrays:
         if _digest(arr) != dig:
@@ -328,14 +350,14 @@ def _tol(pre):
 # main entry
 # ------------------------------------------------------------------------------------------
 PROP_OF_ACTION = {
-    "env.combine": ["C02"],
-    "env.reorder": ["C02"],
+    "env.combine": ["C02", "C13"],
+    "env.reorder": ["C02", "C13"],
     "env.expand": ["C02", "C08"],
     "env.contract": ["C08"],
     "sub.expand": ["C02", "C08"],
     "sub.contract": ["C08"],
-    "ce.combine": ["C02"],
-    "ce.reorder": ["C02"],
+    "ce.combine": ["C02", "C13"],
+    "ce.reorder": ["C02", "C13"],
     "ce.expand": ["C02", "C08"],
     "mk_ce": ["C02", "C13"],
     "mk_env": ["C13"],
@@ -367,15 +389,7 @@ def check_step(world, pre, post, r, res):
     if do == "fault":
         _check_fault(world, pre, post, r, res, cell, out, tol)
         return out
-    if do == "op":
-        spec = res.info.get("spec") or {}
-        props = ["C03"] if spec.get("t", "").startswith("X.") else ["C01"]
-        if spec.get("t") in ("X.BS", "F.PhaseShift") or (spec.get("t") == "X.Expr" and spec.get("form") == "bs"):
-            props = props + ["C11"]
-    elif do == "measure":
-        props = ["C05"]
-    else:
-        props = PROP_OF_ACTION.get(do, ["C01"])
+    props = action_props(world, r, res)
     if res.status == "raised":
         out.append(
             Violation(props, "valid-request", "raised:" + str(res.exc), cell, (res.msg or "")[:200])
